@@ -27,6 +27,7 @@ class BWorld:
         self.ev = 0
         self.registry = {BLANK_HASH: {}}
         self.order = [BLANK_HASH]
+        self.snaps = {BLANK_HASH: {}}
         self.probes = [unhx(k) for k in cfg.get("probe", [])]
         self.fired = []
         self._ref = None
@@ -72,7 +73,7 @@ class BWorld:
             keys = sorted(self.db.raw())
             if keys:
                 wh = set(wh or ()) | {keys[j % len(keys)] for j in whi}
-        self.db.arm(fail_set=(int(fw[0]), bool(fw[1])) if fw else None, withhold=wh)
+        self.db.arm(fail_set=(int(fw[0]), bool(fw[1]), fw[2] if len(fw) > 2 else "E") if fw else None, withhold=wh)
 
     def disarm(self):
         db = self.db
@@ -108,3 +109,4 @@ class BWorld:
         if root not in self.registry:
             self.registry[root] = dict(self.model)
             self.order.append(root)
+            self.snaps[root] = dict(self.db.raw())
